@@ -128,7 +128,9 @@ private:
             BM = true_BM;
         }
 
-        Eigen::SimplicialLDLT<SparseMatrix> chol_MBM(M.transpose() * BM);
+        // The factors are used below without the fill-reducing permutation of the
+        // decomposition, so the matrix has to be factorized in its natural ordering
+        Eigen::SimplicialLDLT<SparseMatrix, Eigen::Lower, Eigen::NaturalOrdering<int>> chol_MBM(M.transpose() * BM);
 
         if (chol_MBM.info() != Eigen::Success)
         {
